@@ -112,6 +112,7 @@ func xtoolsTypes(names ...string) (string, error) {
 
 func init() {
 	outFile["TxtarSrc"] = "TxtarSrc.v"
+	stubOnFailure["TxtarSrc"] = true
 	groups["TxtarSrc"] = func(g *gen) {
 		stubs := map[string]string{}
 		for k, v := range goLibStubs {
